@@ -438,6 +438,25 @@ def check_pem(ctx, oid="C14.3"):
                                       [PRIM("BIT STRING"), L + 1, tm.cat([b"\x00", key])]]]
         R.check(oid, "TERM-EQ", fi, "len %d: DER = %s, every length octet exact" % (L, what), tm.veq(got, want),
                 "DER bytes for a %d-byte key: %s" % (L, tm.first_diff(got, want)), expected=tm.show(want)[:300], found=tm.show(got)[:300], example="any %d-byte key" % L)
+        # reader after writer: the decoder, with the ASN.1 parser inlined, run on that very document (arbitrary key bytes of
+        # exactly L bytes) gives the key back -- whatever the key's bytes look like (e.g. a key that starts like a DER SEQUENCE)
+        fdk = ctx.fn("bits.utils.pem_decode_key")
+        evr = ctx.evaluator(opaque={"bits.pem.decode_pem"}, max_depth=12)
+        evr.unroll_sized = True
+        pem_ = P(fdk.params()[0], tm.BYTES)
+        evr.bind = {tm.app("bits.pem.decode_pem", [pem_], ty=tm.BYTES): want}
+        try:
+            kind2, val2 = rules.strict_outcome(evr.run(fdk))
+        except Exception as ex_:  # an evaluation problem is reported as this obligation failing, not as a crash of the check
+            kind2, val2 = "error", str(ex_)[:80]
+        val2 = rules.unfz(val2) if kind2 == "return" else val2
+        if L == 32:
+            okrt = kind2 == "return" and isinstance(val2, (list, tuple)) and len(val2) == 2 and tm.veq(val2[0], k) and tm.veq(val2[1], pub)
+        else:
+            okrt = kind2 == "return" and isinstance(val2, (list, tuple)) and len(val2) == 1 and tm.veq(val2[0], k)
+        R.check(oid, "ROUND-TRIP", fdk, "len %d: pem_decode_key(document of any %d-byte key) returns that key%s" % (L, L, " and its public key" if L == 32 else ""), okrt,
+                "decoding the document pem_encode_key builds for a %d-byte key gives %s %s" % (L, kind2, tm.show(val2)[:160]),
+                example="a private key whose bytes start with 30 1e (they look like a DER SEQUENCE filling the OCTET STRING)" if L == 32 else "any %d-byte key" % L)
     R.floor(oid, len(trees), 3, "der_documents")
     for L in (0, 31, 34, 64, 66):
         evf = ctx.evaluator(opaque={"bits.pem.encode_pem"}, max_depth=12, extra_prims={"bits.utils.compute_point": cp_prim})
